@@ -12,7 +12,8 @@ RULE = ("stateless exploration of ALL thread schedules up to a preemption bound 
         "public mutators on 5 topologies (same object, two objects on one file, root + nested child, same nested "
         "child, sibling children); oracle = the observation (each result/exception, final file) must equal that of "
         "some serial order executed on the implementation itself; non-trivial = distinct observations")
-BOUNDS = {"quick": "JSON family: all pairs of a 6-op core per type x 5 topologies, bound 1 with reduction; other "
+BOUNDS = {"quick": "JSON family: all pairs of a 6-op core per type x 5 topologies, bound 1 with reduction, plus "
+                   "setitem||setitem / append||append on one object and on two objects at bound 2; other "
                    "families: 3-op core x 2 topologies, bound 1",
           "thorough": "JSON family: all pairs of the full mutator set x 5 topologies at bound 1 WITHOUT reduction; 3-op core "
                       "at bound 2; 3 threads x 1 op and 2 threads x 2 ops on the core at bound 1; other families 6-op core"}
@@ -135,6 +136,12 @@ def plan(tier, seed):
                         if topo in ("same-listchild", "children-of-two-objects"):
                             continue  # thorough tier only
                         programs1 += pairs_for(c, topo, CORE6 if topo in ("same", "two-objects") else CORE5)
+                    # a small bound-2 core in the quick tier too: two threads inside the critical section at once need
+                    # two preemptions to be SEEN (one to get the second thread in, one to get the first one out again)
+                    k_ = env.kind_of(c)
+                    w_ = {"dict": ("setitem_diff",), "list": ("append",)}
+                    for topo in ("same", "two-objects"):
+                        programs2 += pairs_for(c, topo, w_)
                 else:
                     full = {"dict": tuple(DICT_OPS), "list": tuple(LIST_OPS)}
                     for topo in topos_all:
